@@ -12,7 +12,7 @@ from .c06 import escripts, parse_info, plaintext
 LEVEL = "model_checking"
 RULE = ("breadth-first over encryption histories: per step plaintext in {A, B, empty} x encryptor object {reused, new} x "
         "entry {Encryptor.encrypt_and_generate, cmd_encrypt.main with files} x key {k1, k2} (+ the CLI main writing into ONE already populated output directory); every history up to the "
-        "depth bound is executed twice - with OWNED entropy/clock (os.urandom replaced by a labelled counter stream, "
+        "depth bound is executed with OWNED entropy/clock/environment (os.urandom replaced by a labelled counter stream - plus, as deviation 1 of the entropy source, every single collision of two draws of <= 5 bytes, which real entropy produces within 10^5 steps -, the variables of a reproducible build (SOURCE_DATE_EPOCH, ...) unset and, to depth 2/3, set, "
         "time frozen, the global `random` generator re-seeded before every step: any IV that is constant, cached, reset per object/process or derived from plaintext/clock "
         "collides deterministically) and with real entropy; histories are not merged (hidden interpreter state). "
         "Invariant in every state: IVs published under the same key are pairwise distinct and every ciphertext "
@@ -33,25 +33,58 @@ ALPHABET = [(p, o, e, k) for p in ("A", "B", "E") for o in ("reuse", "new") for 
 OWNED_ACTIVE = [False]
 
 
+SHORT_DRAW = 5      # bytes; see Owned
+REPRO_ENV = {"SOURCE_DATE_EPOCH": "1700000000", "ZERO_AR_DATE": "1", "PYTHONHASHSEED": "0"}
+
+
 class Owned:
-    """Owned entropy and clock for one history execution."""
+    """Owned entropy, clock and process environment for one history execution.
+
+    os.urandom answers with a labelled counter stream: all draws are distinct, except for ONE chosen short draw
+    (collide=j: the j-th draw of at most SHORT_DRAW bytes repeats the previous draw of the same size).  Two draws of
+    k <= 5 bytes coinciding is something the real entropy source does within the property's own bound (10^5 steps:
+    birthday probability >= 10^-3 for 40 bits, ~0.7 for 32 bits); two 12-byte draws coinciding is not (2^-96 per pair)
+    and is never produced.  A single collision cannot make two IVs equal that each rest on >= 96 bits of entropy.
+    repro=True additionally sets the variables a reproducible build exports (SOURCE_DATE_EPOCH, ...)."""
+
+    def __init__(self, collide=None, repro=False):
+        self.collide, self.repro = collide, repro
 
     def __enter__(self):
         self.n = 0
+        self.short = 0
+        self.last_short = {}
         OWNED_ACTIVE[0] = True
         self._ur, self._t, self._tn = os.urandom, time.time, time.time_ns
 
         def urandom(k):
             self.n += 1
-            return (self.n).to_bytes(max(k, 8), "big")[-k:] if k else b""
+            val = (self.n).to_bytes(max(k, 8), "big")[-k:] if k else b""
+            if 0 < k <= SHORT_DRAW:
+                self.short += 1
+                if self.collide is not None and self.short == self.collide + 1 and k in self.last_short:
+                    val = self.last_short[k]
+                self.last_short[k] = val
+            return val
         os.urandom = urandom
         time.time = lambda: 1_700_000_000.0
         time.time_ns = lambda: 1_700_000_000_000_000_000
+        self._env = {k: os.environ.get(k) for k in REPRO_ENV}
+        for k, v in REPRO_ENV.items():
+            if self.repro:
+                os.environ[k] = v
+            else:
+                os.environ.pop(k, None)
         return self
 
     def __exit__(self, *a):
         OWNED_ACTIVE[0] = False
         os.urandom, time.time, time.time_ns = self._ur, self._t, self._tn
+        for k, v in self._env.items():
+            if v is None:
+                os.environ.pop(k, None)
+            else:
+                os.environ[k] = v
 
 
 class _Real:
@@ -94,44 +127,61 @@ def check_step(key_name, iv, content, prot, pt):
     return dec == pt
 
 
+MODES = ("owned", "owned-repro", "real")
+
+
 def hist_init():
-    return [((m,), ("mode", m)) for m in ("owned", "real")]
+    return [((m,), ("mode", m)) for m in MODES]
+
+
+def _env_of(mode, collide=None):
+    return Owned(collide, repro=(mode == "owned-repro")) if mode.startswith("owned") else _Real()
 
 
 def hist_step(hist, agg, expand):
-    from suit_generator import cmd_encrypt
     hist = tuplify(hist)
     mode, steps = hist[0], hist[1:]
-    key = h8("c14", hist)
+    env = _env_of(mode)
+    if not _run_history(mode, steps, env, agg, ""):
+        return []
+    # deviation 1 of the entropy source: each single short-draw collision in turn (none on a tree that draws 12 bytes at once)
+    for j in range(1, getattr(env, "short", 0)):
+        if not _run_history(mode, steps, _env_of(mode, j), agg, f" [short entropy draw {j + 1} repeats draw {j}]"):
+            return []
+    agg.ok(h8("c14", hist), f"ok:{mode}:steps={len(steps)}", nontrivial=len(steps) > 0,
+           sample={"mode": mode, "history": [ALPHABET[x] for x in steps]} if len(steps) == 2 and steps[0] == 5 and steps[1] == 3 else None)
+    if not expand or (mode != "owned" and len(steps) >= REAL_DEPTH[0]):
+        return []
+    return [(str(ALPHABET[i]), hist + (i,), None) for i in range(len(ALPHABET))]
+
+
+def _run_history(mode, steps, env, agg, note):
+    from suit_generator import cmd_encrypt
     seen = {}       # key name -> {iv: step}
-    with fresh_dir("c14") as d, (Owned() if mode == "owned" else _Real()):
+    with fresh_dir("c14") as d, env:
         obj = None
         for si, ai in enumerate(steps):
             p, o, e, k = ALPHABET[ai]
             if obj is None or o == "new":
                 obj = cmd_encrypt._import_encryptor(escripts()[0])
-            label = f"{mode} entropy, history {[ALPHABET[x] for x in steps[:si + 1]]}"
+            label = f"{mode} entropy{note}, history {[ALPHABET[x] for x in steps[:si + 1]]}"
             try:
                 iv, content, prot = one_step(obj, PT[p], k, e, d, si)
             except Exception as ex:
                 agg.viol(f"C14:encrypt-failed/{type(ex).__name__}", f"{label}: {type(ex).__name__}: {str(ex)[:200]}")
-                return []
+                return False
             if len(iv) != 12:
                 agg.viol("C14:iv-length", f"{label}: published IV has {len(iv)} bytes")
-                return []
+                return False
             if not check_step(k, iv, content, prot, PT[p]):
                 agg.viol("C14:published-iv-not-used", f"{label}: the ciphertext of step {si} does not decrypt with the IV published for it ({iv.hex()})")
-                return []
+                return False
             if iv in seen.setdefault(k, {}):
-                agg.viol("C14:iv-reuse", f"{label}: IV {iv.hex()} of step {si} was already published at step {seen[k][iv]} under the same key {k}",
+                agg.viol("C14:iv-reuse" + ("/short-entropy" if note else ""), f"{label}: IV {iv.hex()} of step {si} was already published at step {seen[k][iv]} under the same key {k}",
                          artefacts={"iv": iv.hex(), "mode": mode})
-                return []
+                return False
             seen[k][iv] = si
-    agg.ok(key, f"ok:{mode}:steps={len(steps)}", nontrivial=len(steps) > 0,
-           sample={"mode": mode, "history": [ALPHABET[x] for x in steps]} if len(steps) == 2 and steps[0] == 5 and steps[1] == 3 else None)
-    if not expand or (mode == "real" and len(steps) >= REAL_DEPTH[0]):
-        return []
-    return [(str(ALPHABET[i]), hist + (i,), None) for i in range(len(ALPHABET))]
+    return True
 
 
 # -- the KMS object driven directly (a reused KMS is the other place where an IV could be cached) -----------------
@@ -143,16 +193,31 @@ def kms_step(hist, agg, expand):
     from .c04 import _kms
     hist = tuplify(hist)
     mode, steps = hist[0], hist[1:]
+    env = _env_of(mode)
+    if not _run_kms_history(mode, steps, env, agg, ""):
+        return []
+    for j in range(1, getattr(env, "short", 0)):
+        if not _run_kms_history(mode, steps, _env_of(mode, j), agg, f" [short entropy draw {j + 1} repeats draw {j}]"):
+            return []
+    agg.ok(h8("c14k", hist), f"ok:kms:{mode}:steps={len(steps)}", nontrivial=len(steps) > 0,
+           sample={"mode": mode, "kms_history": [KMS_ALPHABET[x] for x in steps]} if len(steps) == 2 and steps == (1, 6) else None)
+    if not expand or (mode == "owned-repro" and len(steps) >= REAL_DEPTH[0]):
+        return []
+    return [(str(KMS_ALPHABET[i]), hist + (i,), None) for i in range(len(KMS_ALPHABET))]
+
+
+def _run_kms_history(mode, steps, env, agg, note):
+    from .c04 import _kms
     aad = refcose.enc_structure(bytes.fromhex("a10103"))
     seen = {}
-    with (Owned() if mode == "owned" else _Real()):
+    with env:
         kms = None
         for si, ai in enumerate(steps):
             p, o, k = KMS_ALPHABET[ai]
             if kms is None or o == "new":
                 kms = _kms().suit_kms_factory()
                 kms.init_kms(vkeys.key_dir())
-            label = f"{mode} entropy, KMS history {[KMS_ALPHABET[x] for x in steps[:si + 1]]}"
+            label = f"{mode} entropy{note}, KMS history {[KMS_ALPHABET[x] for x in steps[:si + 1]]}"
             try:
                 if OWNED_ACTIVE[0]:
                     import random
@@ -160,19 +225,15 @@ def kms_step(hist, agg, expand):
                 nonce, tag, ct = kms.encrypt(plaintext=PT[p], key_name=k, context=vkeys.key_dir(), aad=aad)
             except Exception as ex:
                 agg.viol(f"C14:kms-encrypt-failed/{type(ex).__name__}", f"{label}: {ex}")
-                return []
+                return False
             if refcose.aes_gcm_decrypt(vkeys.aes_key(k), nonce, ct, tag, aad) != PT[p]:
                 agg.viol("C14:published-iv-not-used", f"{label}: KMS output does not decrypt with the nonce it returned")
-                return []
+                return False
             if nonce in seen.setdefault(k, {}):
-                agg.viol("C14:iv-reuse/kms", f"{label}: nonce {nonce.hex()} of step {si} already returned at step {seen[k][nonce]} under key {k}")
-                return []
+                agg.viol("C14:iv-reuse/kms" + ("/short-entropy" if note else ""), f"{label}: nonce {nonce.hex()} of step {si} already returned at step {seen[k][nonce]} under key {k}")
+                return False
             seen[k][nonce] = si
-    agg.ok(h8("c14k", hist), f"ok:kms:{mode}:steps={len(steps)}", nontrivial=len(steps) > 0,
-           sample={"mode": mode, "kms_history": [KMS_ALPHABET[x] for x in steps]} if len(steps) == 2 and steps == (1, 6) else None)
-    if not expand:
-        return []
-    return [(str(KMS_ALPHABET[i]), hist + (i,), None) for i in range(len(KMS_ALPHABET))]
+    return True
 
 
 # -- fresh interpreters ------------------------------------------------------------------------------
@@ -189,7 +250,8 @@ def run_fresh(case, agg):
             od = os.path.join(d, f"o{i}")
             os.makedirs(od)
             rc, so, se = impl.cli(["encrypt", "encrypt-and-generate", "--firmware", fw, "--key-name", "aes", "--key-id", "5", "--context", kd,
-                                   "--output-dir", od, "--kms-script", ks, "--encrypt-script", es], d)
+                                   "--output-dir", od, "--kms-script", ks, "--encrypt-script", es], d,
+                                  extra_env=REPRO_ENV if i % 2 else None)     # every other one inside a "reproducible build"
             if rc != 0:
                 agg.viol("C14:cli-failed", f"fresh interpreter {i}: rc={rc} {se[-200:]}")
                 return
